@@ -159,7 +159,6 @@ pub struct Disk {
 
 pub struct World {
     pub nodes: Vec<Box<dyn DynOwner>>,
-    pub specs: Vec<NodeSpec>,
     pub msgs: Vec<Msg>,
     pub disks: Vec<Disk>,
     pub crashed: Vec<bool>,
@@ -362,7 +361,6 @@ impl World {
         let n = nodes.len();
         let mut w = Self {
             nodes,
-            specs: specs.to_vec(),
             msgs: Vec::new(),
             disks: vec![Disk::default(); n],
             crashed: vec![false; n],
